@@ -211,6 +211,8 @@ struct Case {
     imm: bool,
     kind: Kind,
     window: u64,
+    /// explicit replay capacity (`<window>/<cap>` on the op line); None: derived from the case (`make_control`)
+    cap: Option<u64>,
     setup: Vec<Op>,
     threads: Vec<Vec<Op>>,
     /// signalling threads serialised by a harness-side lock (their linearisation is then known)
@@ -221,19 +223,22 @@ impl Case {
     fn head(&self, idx: u64) -> String {
         let (k, len) = match &self.kind { Kind::Credit(l) => ("credit", *l), Kind::Reconnect => ("reconnect", 0) };
         let thr = if self.threads.is_empty() { "-".to_string() } else { self.threads.iter().map(|t| show_ops(t)).collect::<Vec<_>>().join("/") };
-        format!("{} {} {} {} {} setup={} thr={}", if self.imm { "imm" } else if self.tmo { "tmo" } else { "wake" }, idx, k, len, self.window, show_ops(&self.setup), thr)
+        let win = match self.cap { Some(c) => format!("{}/{}", self.window, c), None => self.window.to_string() };
+        format!("{} {} {} {} {} setup={} thr={}", if self.imm { "imm" } else if self.tmo { "tmo" } else { "wake" }, idx, k, len, win, show_ops(&self.setup), thr)
     }
     fn parse(line: &str) -> Option<Case> {
         let w = words(line);
         if w.len() < 7 { return None; }
         let (tmo, imm) = match w[0] { "tmo" | "trk" | "sq" => (true, false), "wake" | "race" => (false, false), "imm" => (true, true), _ => return None };
         let kind = match w[2] { "credit" => Kind::Credit(w[3].parse().ok()?), "reconnect" => Kind::Reconnect, _ => return None };
-        let window = w[4].parse().ok()?;
+        let mut wc = w[4].split('/');
+        let window = wc.next()?.parse().ok()?;
+        let cap = match wc.next() { Some(c) => Some(c.parse().ok()?), None => None };
         let setup = parse_ops(w[5].strip_prefix("setup=")?)?;
         let t = w[6].strip_prefix("thr=")?;
         let threads = if t == "-" { vec![] } else { t.split('/').map(parse_ops).collect::<Option<Vec<_>>>()? };
         let seq = w.get(7).map(|o| *o != "order=-").unwrap_or(true);
-        Some(Case { tmo, imm, kind, window, setup, threads, seq })
+        Some(Case { tmo, imm, kind, window, cap, setup, threads, seq })
     }
 }
 
@@ -311,7 +316,7 @@ struct Exec {
 
 /// Run one case against the real `TransferControl`.
 fn execute(c: &Case, rng: &mut Rng, tmo_ms: u64) -> Exec {
-    let tc = make_control(c.window, &c.setup);
+    let tc = match c.cap { Some(cap) => TransferControl::with_replay_capacity(c.window, cap), None => make_control(c.window, &c.setup) };
     let mut setup_pending = None;
     for op in &c.setup {
         match (op, apply(&tc, op)) { (Op::Adv(_), _) => setup_pending = None, (_, OpRes::ResumeOk(o)) => setup_pending = Some(o), _ => {} }
@@ -706,7 +711,7 @@ fn gen_case(rng: &mut Rng, tmo: bool) -> Case {
         }
         threads.retain(|t| !t.is_empty());
     }
-    Case { tmo, imm: false, kind: if reconnect { Kind::Reconnect } else { Kind::Credit(w.len) }, window: w.window, setup: w.setup, threads, seq }
+    Case { tmo, imm: false, kind: if reconnect { Kind::Reconnect } else { Kind::Credit(w.len) }, window: w.window, cap: None, setup: w.setup, threads, seq }
 }
 
 /// Deadline already passed at entry, condition already true (made true by the last setup ops).
@@ -733,7 +738,7 @@ fn gen_imm(rng: &mut Rng) -> Case {
             _ => setup.push(Op::Ack(w.file, w.sent)),
         }
     }
-    Case { tmo: true, imm: true, kind: if reconnect { Kind::Reconnect } else { Kind::Credit(w.len) }, window: w.window, setup, threads: vec![], seq: false }
+    Case { tmo: true, imm: true, kind: if reconnect { Kind::Reconnect } else { Kind::Credit(w.len) }, window: w.window, cap: None, setup, threads: vec![], seq: false }
 }
 
 
@@ -1015,7 +1020,7 @@ fn run_multi(out: &mut Out, c: &MultiCase, idx: u64) {
 // ------------------------------------------------------------------------------------------
 struct WdResult { lines: Vec<(String, String)>, fails: Vec<(String, String, String)> }
 
-fn run_watchdog_case(seed: u64) -> WdResult {
+fn run_watchdog_case(seed: u64, thorough: bool) -> WdResult {
     let mut rng = Rng::new(seed);
     let reg: Arc<repe::TransferRegistry<u64>> = Arc::new(repe::TransferRegistry::new());
     let mut waiters = Vec::new();
@@ -1049,7 +1054,9 @@ fn run_watchdog_case(seed: u64) -> WdResult {
         }));
     }
     // idle timeout 200 ms; the watchdog ticks every second (its lower clamp): the cancel comes after ~1-2 s
-    repe::spawn_watchdog(reg.clone(), Duration::from_millis(200));
+    // (the idle timeout itself: 0, 1 ms, 200 ms; 4 s - where idle/4 meets the 1 s clamp of the tick - in thorough)
+    let idle_ms = if thorough { *rng.pick(&[0u64, 1, 200, 3999, 4000]) } else { *rng.pick(&[0u64, 1, 200]) };
+    repe::spawn_watchdog(reg.clone(), Duration::from_millis(idle_ms));
     let mut got: Vec<Option<Got>> = vec![None, None];
     let wd = Instant::now() + Duration::from_secs(5) + WATCHDOG;
     while got.iter().any(|g| g.is_none()) {
@@ -1063,12 +1070,15 @@ fn run_watchdog_case(seed: u64) -> WdResult {
         let g = got[i].clone().unwrap_or(Got::Parked);
         let shown = match &g { Got::Cancelled(r) if r == "transfer idle" => "cancelled:0".to_string(), o => o.show() };
         let fin = format!("{}:{}:{}", s, a, if tc.is_cancelled() { 1 } else { 0 });
-        let line = format!("wake IDX {} got={} fin={}", heads[i], shown, fin);
+        // no cancel happened (the property does not say the watchdog must fire): then there was no event to wake for
+        let head = if g == Got::Parked && !tc.is_cancelled() { heads[i].replace("thr=cancel:0", "thr=-") } else { heads[i].clone() };
+        let line = format!("wake IDX {} got={} fin={}", head, shown, fin);
         match &g {
             Got::Cancelled(r) if r == "transfer idle" => {}
             Got::Parked => {
-                let why = if tc.is_cancelled() { "the idle watchdog cancelled the transfer, the parked producer is still asleep 10 s later" } else { "the idle watchdog never cancelled an idle transfer (15 s)" };
-                res.fails.push((format!("{}.missed_wakeup.watchdog", fam), why.to_string(), line.clone()));
+                if tc.is_cancelled() {
+                    res.fails.push((format!("{}.missed_wakeup.watchdog", fam), "the idle watchdog cancelled the transfer, the parked producer is still asleep 10 s later".to_string(), line.clone()));
+                }
                 let _ = catch(|| tc.cancel("cleanup"));
             }
             o => res.fails.push((format!("{}.value.watchdog", fam), format!("expected Cancelled(transfer idle), wait returned {}", o.show()), line.clone())),
@@ -1102,7 +1112,7 @@ fn gen_sq(rng: &mut Rng) -> SqCase {
     SqCase { kind: if reconnect { Kind::Reconnect } else { Kind::Credit(w.len) }, window: w.window, setup, enabling, n_timeouts: rng.range(1, 2) as u32 }
 }
 
-struct SqResult { kind: Kind, lines: Vec<(String, String)>, fails: Vec<(String, String, String)> }
+struct SqResult { kind: Kind, lines: Vec<(String, String)>, fails: Vec<(String, String, String)>, observations: u64 }
 
 /// wait (short deadline, must time out) × n_timeouts, then a wait with a fresh, longer deadline during
 /// which `enabling` (if any) arrives; everything on one control.
@@ -1112,7 +1122,7 @@ fn run_sq(c: SqCase, seed: u64) -> SqResult {
     let (k, len) = match &c.kind { Kind::Credit(l) => ("credit", *l), Kind::Reconnect => ("reconnect", 0) };
     let tc = make_control(c.window, &c.setup);
     for op in &c.setup { apply(&tc, op); }
-    let mut res = SqResult { kind: c.kind.clone(), lines: vec![], fails: vec![] };
+    let mut res = SqResult { kind: c.kind.clone(), lines: vec![], fails: vec![], observations: 0 };
     let total = c.n_timeouts + 1;
     for wi in 0..total {
         let last = wi + 1 == total;
@@ -1193,6 +1203,7 @@ fn run_sq(c: SqCase, seed: u64) -> SqResult {
 fn log_sq(out: &mut Out, r: SqResult, idx: &mut u64) {
     for (sig, detail, line) in &r.fails { out.oracle_fail(sig, detail, &[line.clone()]); }
     let kind = match r.kind { Kind::Credit(_) => "credit", Kind::Reconnect => "reconnect" };
+    out.add("observer.distinct_observations", r.observations);
     for (i, (line, obs)) in r.lines.iter().enumerate() {
         *idx += 1;
         out.count(&format!("sq.{}.wait{}.{}", kind, i + 1, obs.split(' ').nth(1).unwrap_or("?").split(':').next().unwrap()));
@@ -1243,15 +1254,34 @@ impl Spec {
 // later wait must behave as on a fresh control in the same abstract state (logged as `sq` lines whose
 // setup is the whole history, so the model judges exactly that)
 // ------------------------------------------------------------------------------------------
-fn run_life(seed: u64, fixed: Option<(u64, Vec<Op>, Kind, Option<Op>)>) -> SqResult {
+/// A scripted single wait (replays, bursts, knob pairs): history, what runs while the waiter waits, observers.
+#[derive(Clone)]
+struct Fixed {
+    window: u64,
+    cap: Option<u64>,
+    setup: Vec<Op>,
+    kind: Kind,
+    /// ops issued while the waiter waits, before `enabling` (a run of N identical events)
+    during: Vec<Op>,
+    enabling: Option<Op>,
+    /// long runs are written into the `setup=` part of the op line (the model then folds over them instead of
+    /// exploring them; the harness still issues them while the waiter waits)
+    during_on_setup: bool,
+    /// threads hammering the read-only methods meanwhile
+    observers: u8,
+    /// deadline of the wait when nothing is expected to enable it (None: 2-15 ms)
+    idle_deadline: Option<Duration>,
+}
+
+fn run_life(seed: u64, fixed: Option<Fixed>) -> SqResult {
     let mut rng = Rng::new(seed);
     let mut w = world(&mut rng);
-    if let Some((window, setup, _, _)) = &fixed { w.window = *window; w.setup = setup.clone(); }
+    if let Some(f) = &fixed { w.window = f.window; w.setup = f.setup.clone(); }
     let mut hist: Vec<Op> = w.setup.clone();
-    let tc = make_control(w.window, &hist);
+    let tc = match fixed.as_ref().and_then(|f| f.cap) { Some(c) => TransferControl::with_replay_capacity(w.window, c), None => make_control(w.window, &hist) };
     let mut spec = Spec::new(w.window);
     for op in &hist { apply(&tc, op); spec.apply(op); }
-    let mut res = SqResult { kind: Kind::Reconnect, lines: vec![], fails: vec![] };
+    let mut res = SqResult { kind: Kind::Reconnect, lines: vec![], fails: vec![], observations: 0 };
     let mut reason = 0u64;
     let rounds = if fixed.is_some() { 1 } else { rng.range(4, 8) };
     let mut prev_kind: Option<Kind> = None;   // a producer often asks again for the same chunk
@@ -1274,7 +1304,7 @@ fn run_life(seed: u64, fixed: Option<(u64, Vec<Op>, Kind, Option<Op>)>) -> SqRes
             if !seen_lens.is_empty() && rng.chance(1, 2) { Kind::Credit(*rng.pick(&seen_lens)) }   // the same chunk again, later in life
             else { Kind::Credit(*rng.pick(&[0u64, 1, w.len, spec.window, spec.window.saturating_sub(inf).saturating_add(1), u64::MAX])) }
         };
-        let kind = if let Some((_, _, k, _)) = &fixed { k.clone() } else { kind };
+        let kind = if let Some(f) = &fixed { f.kind.clone() } else { kind };
         if let Kind::Credit(l) = &kind { if !seen_lens.contains(l) { seen_lens.push(*l); } }
         prev_kind = Some(kind.clone());
         let fam = match kind { Kind::Credit(_) => "wake.credit", Kind::Reconnect => "wake.reconnect" };
@@ -1289,8 +1319,14 @@ fn run_life(seed: u64, fixed: Option<(u64, Vec<Op>, Kind, Option<Op>)>) -> SqRes
                 (Kind::Credit(_), _) => Op::Ack(spec.file, spec.sent),
             })
         };
-        let enabling = if let Some((_, _, _, e)) = &fixed { if at_entry.is_empty() { e.clone() } else { None } } else { enabling };
-        let d = if enabling.is_some() { Duration::from_millis(1500) } else { Duration::from_millis(2 + rng.below(14)) };
+        let enabling = if let Some(f) = &fixed { if at_entry.is_empty() { f.enabling.clone() } else { None } } else { enabling };
+        let during: Vec<Op> = fixed.as_ref().map(|f| f.during.clone()).unwrap_or_default();
+        let n_obs = match &fixed { Some(f) => f.observers, None => if rng.chance(1, 3) { rng.range(1, 3) as u8 } else { 0 } };
+        // will the condition hold once everything has run?
+        let mut spec_end = spec.clone();
+        for op in during.iter().chain(enabling.iter()) { spec_end.apply(op); }
+        let will_enable = at_entry.is_empty() && !spec_end.acceptable(&kind).is_empty();
+        let d = if will_enable { Duration::from_millis(6000) } else if let Some(dd) = fixed.as_ref().and_then(|f| f.idle_deadline) { dd } else { Duration::from_millis(2 + rng.below(14)) };
         let (tx, rx) = mpsc::channel::<(Got, Instant, Instant)>();
         let waiter = {
             let (tc, kind) = (tc.clone(), kind.clone());
@@ -1313,24 +1349,66 @@ fn run_life(seed: u64, fixed: Option<(u64, Vec<Op>, Kind, Option<Op>)>) -> SqRes
                 let _ = tx.send((r.unwrap_or(Got::Panic), deadline, t1));
             })
         };
+        // observers: read-only calls from 1-3 threads while everything else runs
+        let stop = Arc::new(AtomicBool::new(false));
+        let observers: Vec<_> = (0..n_obs).map(|oi| {
+            let (tc, stop) = (tc.clone(), stop.clone());
+            std::thread::spawn(move || {
+                let mut seen: Vec<(u64, u64, bool)> = Vec::new();
+                let mut i = oi as u64;
+                while !stop.load(Ordering::Relaxed) {
+                    i += 1;
+                    let (s, a) = tc.offsets();
+                    let c = if i % 2 == 0 { tc.is_cancelled() } else { tc.cancel_reason().is_some() };
+                    // the two reads are separate calls: pair the flag only with itself
+                    if seen.last() != Some(&(s, a, c)) && seen.len() < 4096 { seen.push((s, a, c)); }
+                    match i % 5 { 0 => { let _ = tc.timestamps(); } 1 => { let _ = tc.peer(); } 2 => { let _ = tc.replay_chunks_from(0); } _ => {} }
+                    if i % 64 == 0 { std::thread::yield_now(); }
+                }
+                seen
+            })
+        }).collect();
         let mut thr = "-".to_string();
         let mut op_done = None;
         let mut after_op: Vec<Got> = vec![];
-        if let Some(op) = &enabling {
+        // every state the control goes through from here on, by the history of calls
+        let mut states: Vec<(u64, u64, bool)> = vec![(spec.sent, spec.acked, spec.cancelled.is_some())];
+        let ops_now: Vec<Op> = during.iter().cloned().chain(enabling.iter().cloned()).collect();
+        if !ops_now.is_empty() {
             std::thread::sleep(Duration::from_micros(rng.below(3000)));
-            apply(&tc, op);
+            for op in &ops_now {
+                apply(&tc, op);
+                spec.apply(op);
+                states.push((spec.sent, spec.acked, spec.cancelled.is_some()));
+            }
             op_done = Some(Instant::now());
-            spec.apply(op);
             after_op = spec.acceptable(&kind);
-            thr = op.show();
+            let on_thr: Vec<Op> = if fixed.as_ref().map(|f| f.during_on_setup).unwrap_or(false) { enabling.iter().cloned().collect() } else { ops_now.clone() };
+            if !on_thr.is_empty() { thr = show_ops(&on_thr); }
         }
+        let line_setup: Vec<Op> = if fixed.as_ref().map(|f| f.during_on_setup).unwrap_or(false) { hist.iter().cloned().chain(during.iter().cloned()).collect() } else { hist.clone() };
         let r = rx.recv_timeout(d + WATCHDOG).ok();
+        stop.store(true, Ordering::Relaxed);
+        let observed: Vec<(u64, u64, bool)> = observers.into_iter().filter_map(|h| h.join().ok()).flatten().collect();
         let (sent, acked) = catch(|| tc.offsets()).unwrap_or((0, 0));
         let cancelled = catch(|| tc.is_cancelled()).unwrap_or(true);
         let fin = format!("{}:{}:{}", sent, acked, if cancelled { 1 } else { 0 });
         let got = r.as_ref().map(|x| x.0.clone()).unwrap_or(Got::Parked);
-        let line = format!("sq IDX {} {} {} setup={} thr={} order=- got={} fin={}", k, len, w.window, show_ops(&hist), thr, got.show(), fin);
+        let win_word = match fixed.as_ref().and_then(|f| f.cap) { Some(c) => format!("{}/{}", w.window, c), None => w.window.to_string() };
+        let line = format!("sq IDX {} {} {} setup={} thr={} order=- got={} fin={}", k, len, win_word, show_ops(&line_setup), thr, got.show(), fin);
         let nth = format!("wait {} of {} in the life of one control ({} ms deadline)", round + 1, rounds, d.as_millis());
+        // (j) every observation is a state the control really was in (offsets() is one lock region)
+        for (s, a, c) in &observed {
+            let offsets_ok = states.iter().any(|st| st.0 == *s && st.1 == *a);
+            let flag_ok = !*c || states.iter().any(|st| st.2);
+            if !offsets_ok || !flag_ok {
+                res.fails.push(("wake.observer.inadmissible_state".to_string(), format!(
+                    "{}: an observer thread read offsets()=({}, {}) cancelled={} which is not a state the control was in at any point of the calls issued ({} states)",
+                    nth, s, a, c, states.len()), line.clone()));
+                break;
+            }
+        }
+        if n_obs > 0 { res.observations += observed.len() as u64; }
         match &r {
             None => {
                 res.fails.push((format!("{}.timeout.never", fam), format!("{}: no return within deadline + 10 s", nth), line.clone()));
@@ -1349,6 +1427,11 @@ fn run_life(seed: u64, fixed: Option<(u64, Vec<Op>, Kind, Option<Op>)>) -> SqRes
                 } else if *g == Got::Timeout && !after_op.is_empty() && op_done.map(|t| t < *deadline).unwrap_or(false) {
                     res.fails.push((format!("{}.missed_wakeup", fam), format!("{}: {} completed {} ms before the deadline and makes the condition true, the wait slept on to its deadline", nth, thr,
                         deadline.saturating_duration_since(op_done.unwrap()).as_millis()), line.clone()));
+                } else if *g != Got::Timeout && after_op.contains(g) && t1 >= deadline
+                    && op_done.map(|t| deadline.saturating_duration_since(t) >= Duration::from_secs(5)).unwrap_or(false) {
+                    // the value is right, but it came only when the wait's own timer fired
+                    res.fails.push((format!("{}.missed_wakeup", fam), format!("{}: {} completed {} ms before the deadline and makes the condition true; the wait returned {} only when its deadline expired", nth, thr,
+                        deadline.saturating_duration_since(op_done.unwrap()).as_millis(), g.show()), line.clone()));
                 } else if *g != Got::Timeout && !after_op.contains(g) {
                     res.fails.push((format!("{}.value.unjustified", fam), format!("{}: returned {} but by the history of calls the condition {}", nth, g.show(),
                         if after_op.is_empty() { "never held".to_string() } else { format!("gives {}", after_op.iter().map(|x| x.show()).collect::<Vec<_>>().join(" or ")) }), line.clone()));
@@ -1358,13 +1441,91 @@ fn run_life(seed: u64, fixed: Option<(u64, Vec<Op>, Kind, Option<Op>)>) -> SqRes
         if r.is_some() { let _ = waiter.join(); }
         res.lines.push((line, format!("IDX {} {}", got.show(), fin)));
         if r.is_none() { break; }
-        if let Some(op) = enabling { hist.push(op); }
+        for op in ops_now { hist.push(op); }
         let wop = Op::Waited(match &kind { Kind::Credit(l) => Some(*l), Kind::Reconnect => None });
         // the spec consumes the resume only if this wait really returned it (it may have timed out first)
         if let Got::Resume(_) = got { spec.apply(&wop); hist.push(wop); }
         else if !matches!(kind, Kind::Reconnect) || spec.pending.is_none() || spec.cancelled.is_some() { hist.push(wop); }
     }
     res
+}
+
+
+// ------------------------------------------------------------------------------------------
+// (g) runs of N identical events while the waiter waits; (k) pairs of knobs at their extremes
+// ------------------------------------------------------------------------------------------
+const RUN_SIZES: [usize; 10] = [1, 2, 7, 8, 9, 16, 17, 64, 65, 256];
+
+fn gen_bursts(thorough: bool) -> Vec<Fixed> {
+    let mut v = Vec::new();
+    let mut sizes: Vec<usize> = RUN_SIZES.to_vec();
+    if thorough { sizes.push(1000); }
+    let base = vec![Op::Push(0, 100_000), Op::Sent(100_000)];
+    let mut case_no = 0u64;
+    for reconnect in [false, true] {
+        for rk in 0..12u32 {
+            for &n in &sizes {
+                case_no += 1;
+                let window = 1 + case_no % 8;
+                let kind = if reconnect { Kind::Reconnect } else { Kind::Credit(1 + case_no % 4) };
+                let mut setup = base.clone();
+                let mut during: Vec<Op> = Vec::new();
+                for i in 0..n as u64 {
+                    match rk {
+                        0 => during.push(Op::Ack(0, i + 1)),                       // advancing, insufficient: each one notifies
+                        1 => during.push(Op::Ack(0, 0)),                           // stale
+                        2 => during.push(Op::Sent(100_001 + i)),
+                        3 => during.push(Op::Res(5, 0)),                           // wrong file: refused
+                        4 => during.push(Op::Res(0, 0)),                           // accepted, frees nothing (reconnect: the first one enables)
+                        5 => during.push(Op::Query((i % 7) as u8)),
+                        6 => during.push(Op::SetPeer(i % 4)),
+                        7 => during.push(Op::Ack(3, u64::MAX)),                    // foreign file
+                        8 => setup.push(Op::Waited(match &kind { Kind::Credit(l) => Some(*l), Kind::Reconnect => None })), // N timeouts in a row before this wait
+                        9 => during.push(Op::Cancel(2 + i)),                       // N cancels: the first reason stays
+                        10 => { during.push(Op::Sent(100_001 + i)); during.push(Op::Ack(0, 100_001 + i)); }
+                        _ => during.push(Op::Adv((1 + i % 3) as u32)),
+                    }
+                }
+                // what finally enables the waiter (nothing more when the run itself does)
+                let mut spec = Spec::new(window);
+                for op in setup.iter().chain(during.iter()) { spec.apply(op); }
+                let enabling = if !spec.acceptable(&kind).is_empty() { None } else if reconnect {
+                    Some(if case_no % 3 == 0 { Op::Cancel(2) } else { Op::Res(spec.file, spec.ring.last().map(|l| l.0 + l.1).unwrap_or(0)) })
+                } else {
+                    Some(match case_no % 3 { 0 => Op::Cancel(3), 1 => Op::Adv(9), _ => Op::Ack(spec.file, spec.sent) })
+                };
+                v.push(Fixed { window, cap: None, setup, kind, during, enabling, during_on_setup: n >= 256, observers: (case_no % 3) as u8, idle_deadline: None });
+            }
+        }
+    }
+    v
+}
+
+fn gen_pairs() -> Vec<Fixed> {
+    let mut v = Vec::new();
+    let mut case_no = 0u64;
+    for &window in &[0u64, 1, u64::MAX] {
+        for &cap in &[0u64, u64::MAX, repe::DEFAULT_REPLAY_RING_BYTES] {
+            for state in 0..3 {
+                for dl in 0..3 {
+                    let lens: Vec<Option<u64>> = vec![Some(0), Some(1), Some(u64::MAX), None];   // None = reconnect
+                    for len in lens {
+                        case_no += 1;
+                        let mut setup = vec![Op::Sent(5)];
+                        match state { 1 => setup.push(Op::Cancel(2 + case_no % 5)), 2 => setup.push(Op::Res(0, 0)), _ => {} }
+                        let kind = match len { Some(l) => Kind::Credit(l), None => Kind::Reconnect };
+                        let (idle_deadline, enabling) = match dl {
+                            0 => (Some(Duration::ZERO), None),
+                            1 => (Some(Duration::from_millis(4)), None),
+                            _ => (Some(Duration::from_millis(3)), Some(match (&kind, case_no % 2) { (_, 0) => Op::Cancel(9), (Kind::Reconnect, _) => Op::Res(0, 0), _ => Op::Ack(0, 5) })),
+                        };
+                        v.push(Fixed { window, cap: Some(cap), setup, kind, during: vec![], enabling, during_on_setup: false, observers: 0, idle_deadline });
+                    }
+                }
+            }
+        }
+    }
+    v
 }
 
 // ------------------------------------------------------------------------------------------
@@ -1510,7 +1671,7 @@ fn race_batch(out: &mut Out, rounds: Vec<RaceRound>, idx: &mut u64, until: Insta
             Got::Parked
         };
         *idx += 1;
-        let c = Case { tmo: false, imm: false, kind: r.kind.clone(), window: r.window, setup: r.setup.clone(), threads: vec![r.ops.clone()], seq: false };
+        let c = Case { tmo: false, imm: false, kind: r.kind.clone(), window: r.window, cap: None, setup: r.setup.clone(), threads: vec![r.ops.clone()], seq: false };
         let head = c.head(*idx).replacen("wake", "race", 1);
         let fin = format!("{}:{}:{}", sent, acked, if cancelled { 1 } else { 0 });
         let line = format!("{} order=- got={} fin={}", head, got.show(), fin);
@@ -1581,7 +1742,7 @@ fn main() {
     let mut out = Out::new(&args.out);
     out.flush_each = true;
     let mut rng = Rng::new(args.seed);
-    out.rule = "one real thread in wait_for_credit/wait_for_reconnect (deadline 1 h) on a TransferControl whose window is full; the harness waits until /proc shows the waiter asleep (70%) or races its entry (30%); then 1-3 ops (ack: exact/insufficient/capped/stale/foreign, cancel, advance, resume: covered/uncovered/foreign, sent) from 1-3 threads with random yields/spins, signallers serialised by a harness lock (linearisation recorded) or free; values scaled by 1..2^40; 3/8 of the worlds sit on a boundary of the credit rule (window 0, chunk_len 0, chunk_len = window, oversized chunk) and enabling acks land in-flight exactly on the grant boundary or on 0. Oracles: condition true in the real final state => waiter returns within 10 s; never Timeout; returned value matches a state that occurred. `tmo` cases: 1-31 ms deadline, 0-3 ops that cannot satisfy the condition (many of them notify), spread over the wait, must return Timeout, not before the deadline. `imm` cases: deadline already passed at entry and condition already true: the matching value must be returned, not Timeout. `race` rounds: waiter and signaller released together from a spin barrier, start offset swept (signaller 0-200 spins later / waiter 0-64 spins later / a non-enabling wake-up then the enabling one 0-4000 spins apart), last op makes the condition true, 5 s watchdog. `multi` cases: 2-4 waiters of mixed kinds (credit with different chunk lengths, reconnect) parked on one control, 1-3 ops: every waiter whose condition holds in the final state must return, a staged resume must be taken by exactly one reconnect waiter, one cancel releases all the rest. `wd`: the registry's idle watchdog (200 ms idle timeout) cancels two idle transfers whose producers are parked: both must return Cancelled(transfer idle). `sq` cases: 2-3 waits one after the other on the SAME control: 1-2 short ones (1-12 ms) that must time out, then one with a fresh 40-120 ms deadline during which, in 3/5 of the cases, an enabling op arrives: never Timeout before that wait's own deadline, never Timeout when the op completed before it. `life` cases: one control through 4-6 waits of both kinds (chunk_len 0/1/window/u64::MAX...), ops between and during the waits, later waits after Timeout / Ok / ResumeReady (resume consumed) / Cancelled results; expectations come from a harness-side reading of the call history (not from the control's getters). `trk` cases: 300-400 ms deadline, a non-enabling ack every ~deadline/4, must return Timeout no later than deadline + 3 s. Non-trivial = the final state obliges the waiter to return, or a tmo case; distinct by op line (incl. observed order/outcome)".into();
+    out.rule = "one real thread in wait_for_credit/wait_for_reconnect (deadline 1 h) on a TransferControl whose window is full; the harness waits until /proc shows the waiter asleep (70%) or races its entry (30%); then 1-3 ops (ack: exact/insufficient/capped/stale/foreign, cancel, advance, resume: covered/uncovered/foreign, sent) from 1-3 threads with random yields/spins, signallers serialised by a harness lock (linearisation recorded) or free; values scaled by 1..2^40; 3/8 of the worlds sit on a boundary of the credit rule (window 0, chunk_len 0, chunk_len = window, oversized chunk) and enabling acks land in-flight exactly on the grant boundary or on 0. Oracles: condition true in the real final state => waiter returns within 10 s; never Timeout; returned value matches a state that occurred. `tmo` cases: 1-31 ms deadline, 0-3 ops that cannot satisfy the condition (many of them notify), spread over the wait, must return Timeout, not before the deadline. `imm` cases: deadline already passed at entry and condition already true: the matching value must be returned, not Timeout. `race` rounds: waiter and signaller released together from a spin barrier, start offset swept (signaller 0-200 spins later / waiter 0-64 spins later / a non-enabling wake-up then the enabling one 0-4000 spins apart), last op makes the condition true, 5 s watchdog. `multi` cases: 2-4 waiters of mixed kinds (credit with different chunk lengths, reconnect) parked on one control, 1-3 ops: every waiter whose condition holds in the final state must return, a staged resume must be taken by exactly one reconnect waiter, one cancel releases all the rest. `wd`: the registry's idle watchdog (200 ms idle timeout) cancels two idle transfers whose producers are parked: both must return Cancelled(transfer idle). `sq` cases: 2-3 waits one after the other on the SAME control: 1-2 short ones (1-12 ms) that must time out, then one with a fresh 40-120 ms deadline during which, in 3/5 of the cases, an enabling op arrives: never Timeout before that wait's own deadline, never Timeout when the op completed before it. `life` cases: one control through 4-6 waits of both kinds (chunk_len 0/1/window/u64::MAX...), ops between and during the waits, later waits after Timeout / Ok / ResumeReady (resume consumed) / Cancelled results; expectations come from a harness-side reading of the call history (not from the control's getters). `burst` cases: runs of 1,2,7,8,9,16,17,64,65,256 (thorough: 1000) identical events while the waiter waits (advancing/stale/foreign acks, sends, refused and accepted resumes, readers, set_peer, cancels, send+ack pairs, advances) or N timeouts in a row before the wait, then the enabling event; `pairs`: window x replay capacity x chunk_len x state x deadline at their extremes (324 combinations); in a third of the scripted/life waits 1-3 observer threads hammer the read-only methods and every observed (sent, acked) must be a state of the call history. `trk` cases: 300-400 ms deadline, a non-enabling ack every ~deadline/4, must return Timeout no later than deadline + 3 s. Non-trivial = the final state obliges the waiter to return, or a tmo case; distinct by op line (incl. observed order/outcome)".into();
     let mut idx = 0u64;
     if let Some(lines) = args.replay_ops() {
         for l in lines {
@@ -1607,7 +1768,10 @@ fn main() {
                         if out.oracle_failures >= MAX_FAILURES { break; }
                         let enabling = c.threads.iter().flatten().next().cloned();
                         // the recorded wait on a control with the recorded history (earlier waits included, `w:*`) ...
-                        let r = run_life(rng.next(), Some((c.window, c.setup.clone(), c.kind.clone(), enabling.clone())));
+                        let all: Vec<Op> = c.threads.iter().flatten().cloned().collect();
+                        let during: Vec<Op> = if all.len() > 1 { all[..all.len() - 1].to_vec() } else { vec![] };
+                        let r = run_life(rng.next(), Some(Fixed { window: c.window, cap: c.cap, setup: c.setup.clone(), kind: c.kind.clone(), during,
+                            enabling: all.last().cloned(), during_on_setup: false, observers: (i % 3) as u8, idle_deadline: None }));
                         log_sq(&mut out, r, &mut idx);
                         // ... and, when the history says the wait starts with its condition false, also preceded by waits that time out
                         let mut spec = Spec::new(c.window);
@@ -1647,7 +1811,7 @@ fn main() {
         }).collect();
         let n_life = if args.thorough() { 400 } else { 64 };
         let life: Vec<_> = (0..n_life).map(|_| { let seed = rng.next(); std::thread::spawn(move || run_life(seed, None)) }).collect();
-        let wdog = { let seed = rng.next(); std::thread::spawn(move || run_watchdog_case(seed)) };
+        let wdog = { let seed = rng.next(); let th = args.thorough(); std::thread::spawn(move || run_watchdog_case(seed, th)) };
         // entry races
         let (n_race, race_budget) = if args.thorough() { (400000, Duration::from_secs(150)) } else { (30000, Duration::from_secs(8)) };
         let t_race = Instant::now();
@@ -1657,7 +1821,7 @@ fn main() {
         // tmo cases are spread among the wake cases
         let every = n_wake / n_tmo;
         // on a crowded machine the quick tier stops generating after a while (coverage shrinks, the verdict does not change)
-        let wake_until = Instant::now() + if args.thorough() { Duration::from_secs(600) } else { Duration::from_secs(24) };
+        let wake_until = Instant::now() + if args.thorough() { Duration::from_secs(600) } else { Duration::from_secs(16) };
         for i in 0..n_wake {
             if i % 64 == 0 && Instant::now() > wake_until {
                 out.count("wake.time_budget_reached");
@@ -1678,6 +1842,19 @@ fn main() {
                 let c = gen_imm(&mut rng);
                 run_case(&mut out, &c, idx, &mut rng);
             }
+        }
+        // (g) runs of identical events, (k) knob pairs: scripted single waits
+        let scripted_until = Instant::now() + if args.thorough() { Duration::from_secs(240) } else { Duration::from_secs(9) };
+        let mut scripted: Vec<(&str, Fixed)> = gen_pairs().into_iter().map(|f| ("pairs", f)).collect();
+        scripted.extend(gen_bursts(args.thorough()).into_iter().map(|f| ("burst", f)));
+        rng.shuffle(&mut scripted);
+        for (what, f) in scripted {
+            if out.oracle_failures >= MAX_FAILURES { break; }
+            if Instant::now() > scripted_until { out.count("scripted.time_budget_reached"); break; }
+            out.count(&format!("scripted.{}", what));
+            if what == "burst" { out.count(&format!("burst.run_of.{}", f.during.len().max(f.setup.len().saturating_sub(2)))); }
+            let r = run_life(rng.next(), Some(f));
+            log_sq(&mut out, r, &mut idx);
         }
         let n_multi = if args.thorough() { 6000 } else { 400 };
         let multi_until = Instant::now() + if args.thorough() { Duration::from_secs(300) } else { Duration::from_secs(8) };
